@@ -30,6 +30,10 @@ pub struct TableCase {
     pub threads: Vec<Vec<TOp>>,
     /// run the linearizability search on per-bucket histories
     pub linearize: bool,
+    /// build the sub-tables from this byte budget each (the shipped sizing path) instead of
+    /// from a bucket count; `buckets` then holds the bucket count the budget must yield
+    #[serde(default)]
+    pub bytes_per_table: Option<usize>,
 }
 
 thread_local! {
@@ -93,13 +97,22 @@ struct Observed {
     seq_dumps: Vec<(usize, Vec<SlotView>, usize)>,
     final_dump: Vec<SlotView>,
     final_entries: usize,
+    final_saturation: f32,
+    saturation_empty: f32,
     max_entries: usize,
     routes: HashMap<u64, (usize, usize)>,
     route_unstable: Option<u64>,
 }
 
-fn learn_route(tables: usize, buckets: usize, key: u64) -> Option<(usize, usize)> {
-    let t = Table::new(tables, buckets);
+fn build(case_tables: usize, case_buckets: usize, bytes: Option<usize>) -> Table {
+    match bytes {
+        Some(b) => Table::with_memory(case_tables, b),
+        None => Table::new(case_tables, case_buckets),
+    }
+}
+
+fn learn_route(tables: usize, buckets: usize, bytes: Option<usize>, key: u64) -> Option<(usize, usize)> {
+    let t = build(tables, buckets, bytes);
     t.insert(key, value_for(key, 0, 0));
     let d = t.dump();
     if d.len() != 1 {
@@ -126,8 +139,8 @@ fn world(case: TableCase) -> Observed {
     let mut routes = HashMap::new();
     let mut route_unstable = None;
     for k in keys_of(&case) {
-        let a = learn_route(case.tables, case.buckets, k);
-        let b = learn_route(case.tables, case.buckets, k);
+        let a = learn_route(case.tables, case.buckets, case.bytes_per_table, k);
+        let b = learn_route(case.tables, case.buckets, case.bytes_per_table, k);
         match (a, b) {
             (Some(a), Some(b)) if a == b => {
                 routes.insert(k, a);
@@ -135,8 +148,9 @@ fn world(case: TableCase) -> Observed {
             _ => route_unstable = Some(k),
         }
     }
-    let table = Arc::new(Table::new(case.tables, case.buckets));
+    let table = Arc::new(build(case.tables, case.buckets, case.bytes_per_table));
     let max_entries = table.max_entries();
+    let saturation_empty = table.saturation();
     let mut recs = Vec::new();
     let mut seq_dumps = Vec::new();
     for op in &case.prefill {
@@ -166,13 +180,14 @@ fn world(case: TableCase) -> Observed {
         }
     }
     let final_entries = table.entries();
+    let final_saturation = table.saturation();
     let final_dump = table.dump();
     // final sequential reads of every key
     for k in keys_of(&case) {
         let r = do_op(&table, usize::MAX - 1, &TOp::Find { key: k });
         recs.push(r);
     }
-    Observed { recs, seq_dumps, final_dump, final_entries, max_entries, routes, route_unstable }
+    Observed { recs, seq_dumps, final_dump, final_entries, final_saturation, saturation_empty, max_entries, routes, route_unstable }
 }
 
 pub fn run(case: &TableCase, spec: &SchedSpec) -> RunReport {
@@ -230,6 +245,19 @@ fn check(case: &TableCase, obs: &Observed, v: &mut Vec<Violation>, stats: &mut R
     let nb = case.tables * case.buckets;
     let slots = if nb > 0 && obs.max_entries % nb == 0 && obs.max_entries > 0 { obs.max_entries / nb } else { 0 };
     let cap = obs.max_entries;
+    if let Some(bytes) = case.bytes_per_table {
+        // a byte budget must be used as fully as whole buckets allow, and never exceeded
+        let per = Table::bucket_bytes();
+        stats.eval("sizing-from-bytes");
+        let want_buckets = bytes / per.max(1);
+        if want_buckets != case.buckets || (slots > 0 && (obs.max_entries / slots) != case.tables * want_buckets) {
+            v.push(Violation::new("C15", "capacity", "sizing", format!("{} sub-tables of {} bytes each ({} bytes per bucket) report capacity {}", case.tables, bytes, per, obs.max_entries)));
+        }
+    }
+    let sat_want = obs.final_entries as f32 / obs.max_entries.max(1) as f32;
+    if (obs.final_saturation - sat_want).abs() > 1e-4 || obs.saturation_empty != 0.0 || !(0.0..=1.0).contains(&obs.final_saturation) {
+        v.push(Violation::new("C15", "entry-count", "saturation", format!("saturation() = {} with {} entries of {} (empty table reported {})", obs.final_saturation, obs.final_entries, obs.max_entries, obs.saturation_empty)));
+    }
     if slots == 0 {
         v.push(Violation::new("C15", "capacity", "", format!("max_entries() = {} is not a positive multiple of {}x{} buckets", obs.max_entries, case.tables, case.buckets)));
         return;
@@ -632,7 +660,10 @@ pub fn generate(rng: &mut Rng64, thorough: bool) -> TableCase {
         threads.push(ops);
     }
     let total_ops: usize = prefill.len() + threads.iter().map(|t| t.len()).sum::<usize>();
-    TableCase { tables, buckets, prefill, threads, linearize: thorough || total_ops <= 14 }
+    // one case in five sizes its sub-tables from a byte budget: exactly `buckets` buckets plus
+    // a remainder smaller than one bucket
+    let bytes_per_table = if rng.chance(200) { Some(buckets * Table::bucket_bytes() + rng.below(Table::bucket_bytes() as u64) as usize) } else { None };
+    TableCase { tables, buckets, prefill, threads, linearize: thorough || total_ops <= 14, bytes_per_table }
 }
 
 pub fn shrink(case: &TableCase) -> Vec<TableCase> {
